@@ -3,6 +3,7 @@ import json
 import os
 
 from lib import vcheck
+from checks.pipeline import pipeline
 
 
 def run(ctx, replay):
@@ -24,6 +25,9 @@ def run(ctx, replay):
     ctx.harness(binary, cases=cases, trace=trace, n=60 if ctx.tier == "thorough" else 12, timeout=3000)
     res = ctx.tlc("TraceFetch", "TraceFetch.cfg", workers=1, files={"trace.ndjson": trace}, timeout=1800, name="TraceFetch")
     vcheck.trace_verdict(ctx, res, trace, trace + ".in", check="trace-fetch", describe=lambda ev: "fetch:%s:n=%d" % (ev.get("schedule"), len(ev["srcok"])))
+    # whole runs against Pprof.tla: every source fetched once, the Symbolizer sees the bag sum of whatever succeeded,
+    # an error only when nothing was fetched
+    pipeline(ctx, kinds=("config", "fetch", "sym", "error"))
     return ctx.finish(
         "model_checking",
         assumptions=["completion orders are forced at the Fetcher plug-in boundary (each fetch returns only when released, the next is released after the previous returned); the goroutine's own bookkeeping after Fetch returns is not gated",
